@@ -151,6 +151,26 @@ fn run_v<V: Fv>(ctx: &Ctx, rep: &mut Report) {
                 }
             }
         }
+        // ... and completions whose F' is in range while the implied, NOT serialized G' leaves
+        // the 8-bit range (a decoder that "normalises" or range-checks the recomputed G changes
+        // or refuses these; whatever it does, an accepted string must re-encode to itself)
+        let mut wide = 0;
+        'w: for c in [3i64, -3, 4, -4, 5, -5, 2, -2, 6, -6] {
+            for j in (0..V::N).step_by(5) {
+                let (sf, sg) = (super::c05::shift(&f, j), super::c05::shift(&g, j));
+                let f2: Vec<i64> = (0..V::N).map(|i| cf[i] + c * sf[i]).collect();
+                let g2: Vec<i64> = (0..V::N).map(|i| cg[i] + c * sg[i]).collect();
+                if f2.iter().any(|x| x.abs() > 127) || !g2.iter().any(|x| x.abs() > 127) {
+                    continue;
+                }
+                check_one::<V>(Ty::Sk, "lattice-variant-with-G-outside-8-bits", &spec::sk_encode(&f, &g, &f2), rep);
+                rep.count("lattice_variant_keys_with_wide_G", 1);
+                wide += 1;
+                if wide >= 12 {
+                    break 'w;
+                }
+            }
+        }
     }
     let synth = ctx.sz(9, 600);
     let flips = ctx.sz(30, 400);
